@@ -11,7 +11,7 @@ REPO = os.environ.get("VERIF_REPO", "/repo")
 VERIF = os.path.dirname(os.path.dirname(os.path.abspath(__file__)))
 HARNESS_DIR = os.path.join(VERIF, "harness")
 GUARD = "IODINE_VERIF"
-BASE_CFLAGS = ["-std=c99", "-DLINUX", "-D_GNU_SOURCE", "-D" + GUARD]
+BASE_CFLAGS = ["-std=c99", "-DLINUX", "-D_GNU_SOURCE", "-D" + GUARD, "-DGITREVISION=\"verif\""]
 # CBMC build only: make glibc ctype macros (table lookups via __ctype_b_loc) plain calls so that CBMC's
 # library models of isdigit/tolower apply (C locale)
 CBMC_ONLY_CFLAGS = ["-D__NO_CTYPE"]
@@ -21,6 +21,11 @@ CBMC_BASE_FLAGS = [
     "--pointer-overflow-check", "--signed-overflow-check", "--undefined-shift-check",
     "--div-by-zero-check", "--drop-unused-functions", "--no-malloc-may-fail",
 ]
+# jobs with checks=False: property assertions + array bounds only (used where the code contains
+# pointer idioms that CBMC's pointer checks flag but no sanitizer can confirm, e.g. md5.c's
+# alignment test `(data - (const md5_byte_t *)0) & 3`; listed in DESIGN.md)
+CBMC_MIN_FLAGS = ["--no-standard-checks", "--bounds-check", "--unwinding-assertions", "--drop-unused-functions",
+                  "--no-malloc-may-fail"]
 FS520 = ["--max-field-sensitivity-array-size", "520"]
 
 
@@ -114,7 +119,9 @@ class Job:
     def __init__(self, name, harness, defs=None, units=(), scale=None, loops=None,
                  unwind=None, timeout=600, mem_gb=12, flags=(), entry="harness",
                  desc="", bounds="", functions=(), object_bits=None, checks=True,
-                 native_units=None, expect_reach=None, subst=(), solver="cadical"):
+                 native_units=None, expect_reach=None, subst=(), solver="cadical", hunits=(), unit_defs=None):
+        self.unit_defs = dict(unit_defs or {})   # per-unit extra -D (CBMC build only)
+        self.hunits = list(hunits)           # extra units living in /verif/harness
         self.solver = solver
         self.subst = list(subst)
         self.name = name
@@ -231,9 +238,10 @@ class Runner:
         defs = ["-D%s=%s" % (k, v) if v is not None else "-D%s" % k for k, v in job.defs.items()]
         objs = []
         cmdbase = ["goto-cc"] + BASE_CFLAGS + CBMC_ONLY_CFLAGS + ["-I", src, "-I", HARNESS_DIR] + defs
-        for u in [os.path.join(HARNESS_DIR, job.harness)] + [os.path.join(src, u) for u in job.units]:
+        for u in [os.path.join(HARNESS_DIR, h) for h in [job.harness] + job.hunits] + [os.path.join(src, u) for u in job.units]:
             o = os.path.join(jd, os.path.basename(u) + ".gb")
-            rc, out, err, dt, to = run(cmdbase + ["-c", u, "-o", o], timeout=300)
+            ud = ["-D%s=%s" % kv for kv in job.unit_defs.get(os.path.basename(u), {}).items()]
+            rc, out, err, dt, to = run(cmdbase + ud + ["-c", u, "-o", o], timeout=300)
             if rc != 0:
                 raise CheckError("goto-cc failed for %s:\n%s" % (u, (out + err)[-3000:]))
             objs.append(o)
@@ -266,7 +274,8 @@ class Runner:
             binf, jd = self.build(job, res)
             uw = self.unwindset(job, binf)
             res.t_build = time.time() - t
-            cmd = ["cbmc", binf, "--function", job.entry] + CBMC_BASE_FLAGS + uw
+            base = CBMC_BASE_FLAGS if job.checks else CBMC_MIN_FLAGS
+            cmd = ["cbmc", binf, "--function", job.entry] + base + uw
             if job.unwind:
                 cmd += ["--unwind", str(job.unwind)]
             if job.object_bits:
@@ -378,7 +387,7 @@ class Runner:
         exe = os.path.join(jd, "replay")
         cmd = ["gcc", "-g", "-O0", "-fsanitize=address,undefined", "-fno-sanitize-recover=undefined",
                "-fno-omit-frame-pointer", "-w"] + BASE_CFLAGS + ["-DVREPLAY", "-I", jd, "-I", self.scratch.src,
-               "-I", HARNESS_DIR] + defs + [os.path.join(HARNESS_DIR, job.harness)] + \
+               "-I", HARNESS_DIR] + defs + [os.path.join(HARNESS_DIR, h) for h in [job.harness] + job.hunits] + \
               [os.path.join(self.scratch.src, u) for u in units] + ["-o", exe, "-lz"]
         rc, out, err, dt, to = run(cmd, timeout=300)
         if rc != 0:
